@@ -98,6 +98,15 @@ def run(prop, tier, replay_path=None):
             r["src"] = path
             r["classes"], r["layouts"] = classes, layouts
             results.append(r)
+        if prop == "C03":
+            # boundary classes: the column's largest value is stored as the maximum of a narrow type and
+            # constants lie just beyond it (strictly monotone, not affine: filters only)
+            clb, lab = [7, 8], ([1, 4] if tier == "quick" else list(range(NLAYOUTS)))
+            for r in run_family(path, "%s_%s_b" % (prop, family), clb, lab):
+                r["family"] = family
+                r["src"] = path
+                r["classes"], r["layouts"] = clb, lab
+                results.append(r)
         if tier == "quick" and prop == "C05":
             # 40-row tables: more than one sort run per partition, limits around half the partition length
             path2, j2, _ = emit(family, 40, prop)
